@@ -33,7 +33,7 @@ TRUSTED = [
 ASSUMPTIONS = [
     'K symmetric, positive definite on its active amplitudes, null rows/columns elsewhere; KG symmetric and '
     'null wherever K is (amplitudes without stiffness carry no geometric stiffness)',
-    'sizes n >= 5, 1 <= num_eigvalues <= 25, tol = 0 (defaults of lb)',
+    'sizes n >= 5, at least 2 active amplitudes (ARPACK needs 0 < k < N), 1 <= num_eigvalues <= 25, tol = 0',
     'a pair is a multiplier together with its mode: eigvals[i], eigvecs[:, i] for i < min(len, columns) - the '
     'dense path returns all multipliers but only num_eigvalues modes; the unpaired tail is not judged',
     '"to solver precision": normwise backward error ||(K+lam*KG)v|| / ((||K||_F+|lam|*||KG||_F)*||v||) <= 1e-7',
@@ -484,7 +484,9 @@ def fro(A):
 
 
 def classify_exception(ex, calls, n, num, nred, kmin=True):
-    """identity of a listed finding, 'solver' for a failure of the external solver, or None"""
+    """identity of a listed entry of known_findings.json (both C05 entries are `fixed`, i.e. they suppress nothing:
+    a re-appearance is named by its identity and reported as a VIOLATION), 'solver' for a failure of the external
+    solver, or None"""
     from scipy.sparse.linalg import ArpackNoConvergence, ArpackError
     if isinstance(ex, (ArpackNoConvergence, ArpackError)):
         return 'solver'
@@ -667,13 +669,14 @@ def evaluate(p, runs):
     return bad, stats
 
 
-# minimised witnesses of the listed findings: run first
+# regression inputs of the repaired defects (fixed entries of known_findings.json, /repo 3692045 and d870371): they
+# must RETURN now; should one of them raise again it is reported as a VIOLATION (a fixed entry suppresses nothing)
 CORPUS = [
-    # dense path, 6 active amplitudes, default 25 requested values -> shape mismatch (6,6) vs (6,25)
+    # dense path, 6 active amplitudes, default 25 requested values (was: shape mismatch (6,6) vs (6,25))
     dict(kind='random', seed=11, n=6, nnull=0, num=25, gkind='negdef', target=3.0, scale=2.0),
-    # sparse fallback, 8 amplitudes, one null: k = 6 < 7 -> eigsh ok, shape mismatch (7,6) vs (7,25)
+    # sparse fallback, 8 amplitudes, one null: k = 6 < 7 (was: shape mismatch (7,6) vs (7,25))
     dict(kind='random', seed=12, n=8, nnull=1, num=25, gkind='negdef', target=3.0, scale=2.0),
-    # sparse fallback, 8 amplitudes, two null, 6 requested: k = min(6, 6) = 6 >= 6 active -> eigsh raises
+    # sparse fallback, 8 amplitudes, two null, 6 requested: k re-capped to 5 < 6 active (was: eigsh 'k >= N')
     dict(kind='random', seed=13, n=8, nnull=2, num=6, gkind='negdef', target=3.0, scale=0.5),
     # no null amplitude, everything returned
     dict(kind='random', seed=14, n=12, nnull=0, num=4, gkind='indef', target=2.0, scale=0.5),
